@@ -301,7 +301,13 @@ func c17Payload(kind string, plan []sim.PlanPkt, at int, r *core.Rng) []byte {
 		default:
 			pre = r.Bytes(4)
 		}
-		return append(pre, evb...)
+		b := append(pre, evb...)
+		for refValid(b) {
+			// (the bytes that now sit in the length field, e.g. the server id,
+			// happen to equal the new length: one more stray byte)
+			b = append([]byte{0x5a}, b...)
+		}
+		return b
 	case "truncated-by-1":
 		return append([]byte(nil), evb[:len(evb)-1]...)
 	case "first-4", "first-5", "first-9", "first-12", "first-13", "first-14", "first-15", "first-16", "first-17", "first-19", "first-20":
@@ -378,7 +384,7 @@ func c17StreamRun(c *core.Ctx, scn c17Scn, h *hist.History, l *hist.Layout, tabl
 	r := c.Rng(core.StrID("c17stream"), uint64(scn.Hist), uint64(scn.At), core.StrID(scn.Kind))
 	payload := c17Payload(scn.Kind, plan, scn.At, r)
 	if refValid(payload) != c17GateValid(scn.Kind) {
-		c.Inconclusive("generated payload is on the wrong side of the gate; skipped")
+		c.Inconclusive(fmt.Sprintf("generated payload is on the wrong side of the gate; skipped (%+v, %d bytes)", scn, len(payload)))
 		return
 	}
 	s, err := run.NewSession(l, tables, 1717, start, true)
